@@ -484,6 +484,71 @@ def to_yaml(doc, style="block", start=True, trailing_newline=True,
     return text + ("\n" if trailing_newline else "")
 
 
+_SEQ_SCALAR = re.compile(r"^ *- (?![-\[{&*!]|.*: )\S")
+_BLOCK_HEAD = re.compile(r"(^|[:\-] )(&\S+ )?[|>][-+]?$")
+
+
+def decorate(text, rng, comments=False):
+    """
+    Presentation that real files have and ruamel.yaml round-trips: full-line
+    comments and blank lines between entries, keep-chomped block scalars
+    with trailing blank lines.  ``comments`` is off by default: ruamel.yaml
+    0.17.21 itself mislays comments and blank lines when the node they hang
+    on gains or loses children (``del d['x']['x']`` below ``x:`` + blank
+    line dumps an unloadable file with no yamlpath code involved), so an
+    edit next to a comment cannot be judged without an oracle for ruamel.
+    Without it only ``|`` -> ``|+`` plus a trailing blank line is applied.  Purely textual; the data (as
+    any YAML loader sees it) changes only where a ``|`` becomes ``|+``.
+    """
+    lines = text.split("\n")
+    tail = lines.pop() if lines and lines[-1] == "" else None
+    out = []
+    body_indent = None      # inside a block scalar body when not None
+    head_idx = None
+    body_was = None
+    for num, line in enumerate(lines):
+        indent = len(line) - len(line.lstrip(" "))
+        if body_indent is not None:
+            if line.strip() == "" or indent >= body_indent:
+                out.append(line)
+                continue
+            # the body ended on the previous line
+            body_was = out[head_idx]
+            if out[head_idx].endswith("|") and rng.random() < 0.4:
+                out[head_idx] += "+"
+                out.append("")
+            body_indent = None
+        if num == 0 and line.startswith("---"):
+            out.append(line)
+            continue
+        if comments and out and out[-1] != "" and rng.random() < 0.25 \
+                and line.lstrip(" ").startswith("- ") and num > 1 \
+                and _SEQ_SCALAR.match(lines[num - 1] if body_was is None
+                                      else body_was) \
+                and len(lines[num - 1]) - len(lines[num - 1].lstrip(" ")) \
+                >= indent:
+            # between two elements of a block sequence, after a scalar one
+            if rng.random() < 0.6:
+                out.append("")
+            if rng.random() < 0.6:
+                out.append(" " * indent + "# " + rng.choice(
+                    ["next section", "see above", "TODO: tidy", "---"]))
+        body_was = None
+        if _BLOCK_HEAD.search(line):
+            out.append(line)
+            head_idx = len(out) - 1
+            body_indent = indent + 1
+            continue
+        out.append(line)
+    if body_indent is not None and out[head_idx].endswith("|") \
+            and rng.random() < 0.4:
+        out[head_idx] += "+"
+        out.append("")
+    if tail is not None:
+        out.append(tail)
+    return "\n".join(out)
+
+
 def to_json(doc, indent=None):
     """Serialise as JSON (aliases resolved; sets become key->null maps)."""
     def conv(data):
